@@ -48,17 +48,21 @@ Theorem C06_fq_sane_no_panic :
 Proof. exact fq_sane_no_panic. Qed.
 Print Assumptions C06_fq_sane_no_panic.
 
-(** non-vacuity: the states left behind by an I/O error in mid-record (FASTA:
-    [Incomplete] with a half-grown buffer; FASTQ: a pending search stage) are sane, and
-    the calls made in them do not panic *)
+(** non-vacuity: the states left behind by an I/O error in mid-record (the reader is
+    finished, with a half-grown buffer and a pending search stage) and by a buffer-limit
+    error ([Incomplete], resumable) are sane, and the calls made in them do not panic *)
 Example C06_fa_sane_example :
   let r1 := fst (fa_next 30 30 c14_fa_reader) in
-  snd (fa_next 30 30 c14_fa_reader) = OErr (FaIo 7) /\ st r1 = FIncomplete /\ FaSane r1 /\
-  (exists rc, snd (fa_next 30 30 r1) = ORec rc).
+  snd (fa_next 30 30 c14_fa_reader) = OErr (FaIo 7) /\ st r1 = FFinished /\ FaSane r1 /\
+  snd (fa_next 30 30 r1) = ONone /\
+  let q := fa_new 4 (mkSource c14_fa_input 0 [] []) (pol_plus 2 7) in
+  snd (fa_next 30 30 q) = OErr FaBufferLimit /\ st (fst (fa_next 30 30 q)) = FIncomplete /\
+  FaSane (fst (fa_next 30 30 q)).
 Proof.
   cbv zeta. split; [vm_compute; reflexivity|]. split; [vm_compute; reflexivity|]. split.
   - eapply fa_next_sane; [apply surjective_pairing|apply fa_new_sane].
-  - vm_compute. eexists; reflexivity.
+  - split; [vm_compute; reflexivity|]. split; [vm_compute; reflexivity|]. split; [vm_compute; reflexivity|].
+    eapply fa_next_sane; [apply surjective_pairing|apply fa_new_sane].
 Qed.
 
 Example C06_fq_sane_example :
